@@ -127,6 +127,17 @@ fn time_lit(rng: &mut Rng) -> TimeLit {
                     seconds: format!("{v:?}").parse::<f32>().unwrap(),
                 };
             }
+            2 if rng.chance(0.05) => {
+                // literals a hair above the midpoint of two adjacent f32 values: rounding them to
+                // f64 first and then to f32 gives the wrong neighbour
+                let text = *["1.0000000596046447753906251", "16777217.000000001", "0.50000002980232238769531251", "2.00000011920928955078125001"]
+                    .get(rng.usize_below(4))
+                    .unwrap();
+                return TimeLit {
+                    seconds: text.parse::<f32>().unwrap(),
+                    text: format!("{text}s"),
+                };
+            }
             2 => {
                 // decimal seconds, e.g. 0.3s: the literal itself is the documented value
                 let tenths = rng.range(1, 35);
